@@ -53,8 +53,13 @@ def caps_for(date, params, res, df):
         pass
     eg = params.get("elterngeld", {})
     if "höchstbetrag" in eg:
-        cap = float(eg["höchstbetrag"]) + 10 * float(eg.get("mehrlingbonus", 0)) + max(float(eg.get("geschwisterbonus_minimum", 0)), 0.1 * float(eg["höchstbetrag"]))
-        out.append(("Elterngeld <= maximum + sibling bonus + multiple-birth bonus", "elterngeld_m", 1.0, np.full(n, cap), 0.01))
+        # the multiple-birth bonus is a fixed amount per further child of the birth (taken from its own node); the sibling bonus
+        # is 10 % of the (capped) base amount, at least the stated minimum
+        mehr = res["elterngeld_mehrlingsbonus_m"].to_numpy().astype(float) if "elterngeld_mehrlingsbonus_m" in res else np.full(n, 10 * float(eg.get("mehrlingbonus", 0)))
+        cap = float(eg["höchstbetrag"]) + mehr + max(float(eg.get("geschwisterbonus_minimum", 0)), 0.1 * float(eg["höchstbetrag"]))
+        # slack 0.10: the sibling bonus is taken from the base amount before the maximum is applied, and the income ceiling
+        # times the replacement rate (2770 x 0.65 = 1800.50) lies 50 cents above the maximum (bonus 180.05 instead of 180.00)
+        out.append(("Elterngeld <= maximum + sibling bonus + multiple-birth bonus", "elterngeld_m", 1.0, cap, 0.10))
     kg = params.get("kindergeld", {}).get("kindergeld")
     if kg is not None and "kindergeld_anz_ansprüche" in res:
         m = max(float(x) for x in kg.values()) if isinstance(kg, dict) else float(kg)
@@ -121,7 +126,7 @@ def caps_for(date, params, res, df):
     return [c for c in out if c]
 
 
-MODES = ["zero", "rich", "negative_rent", "old", "many_children", "mixed", "unemployed_high_earner", "disabled"]
+MODES = ["zero", "rich", "negative_rent", "old", "many_children", "mixed", "unemployed_high_earner", "disabled", "parental_leave_high_earner"]
 
 
 def corner_population(date, rnd, tid):
@@ -182,6 +187,24 @@ def corner_population(date, rnd, tid):
             p["bruttolohn_m"] = 0.0
         if tid % 2 == 1:
             P[0]["alleinerz"] = True
+    if mode == "parental_leave_high_earner":
+        # a parent on leave without current earnings, very high net income before the birth, small siblings (sibling bonus
+        # and multiple-birth bonus range), previous year's taxable income below the eligibility limit
+        import datetime as _dt
+
+        nk = rnd.choice([2, 3])
+        s = [popgen.rec(partner=2, spouse=2, gv=True), popgen.rec(partner=1, spouse=1, gv=True)] + [popgen.rec(age=24, e1=1, e2=2) for _ in range(nk)]
+        P = popgen.compose([s], date, rnd)
+        d0 = _dt.date.fromisoformat(date)
+        for k_, p in enumerate(P[2:]):
+            b = d0 - _dt.timedelta(days=60 + 400 * k_)
+            p.update({"alter": (d0 - b).days // 366, "geburtsjahr": b.year, "geburtsmonat": b.month, "geburtstag": min(b.day, 28), "kind": True, "bruttolohn_m": 0.0, "p_id_kindergeld_empf": P[0]["p_id"]})
+        P[0].update({"alter": 33, "geburtsjahr": d0.year - 33, "bruttolohn_m": 0.0, "bruttolohn_vorj_m": 9000.0, "arbeitsstunden_w": 0.0, "eink_selbst_m": 0.0, "kapitaleink_brutto_m": 0.0, "eink_vermietung_m": 0.0, "sonstig_eink_m": 0.0,
+                     "elterngeld_claimed": True, "monate_elterngeldbezug": rnd.choice([0, 3]), "elterngeld_nettoeinkommen_vorjahr_m": rnd.choice([4000.0, 8000.0, 25000.0]), "rentner": False,
+                     "voll_erwerbsgemind": False, "teilw_erwerbsgemind": False})
+        P[1].update({"alter": 36, "geburtsjahr": d0.year - 36, "bruttolohn_m": 3000.0, "arbeitsstunden_w": 40.0, "elterngeld_claimed": False, "rentner": False, "voll_erwerbsgemind": False, "teilw_erwerbsgemind": False})
+        for p in P[:2]:
+            p["elterngeld_zu_verst_eink_vorjahr_y_sn"] = 120000.0
     return gs.build_population(P, date), P, mode
 
 
@@ -238,7 +261,7 @@ def run(tier):
     from c04 import change_dates_for
 
     dates = change_dates_for(rnd, quick, 3, nreg=1)
-    njobs = 40 if quick else 16 * len(dates)
+    njobs = 45 if quick else 18 * len(dates)
     outs = pool_map(job, sorted([(dates[t % len(dates)], rnd.randrange(1 << 30), t, str(chk.work)) for t in range(njobs)]))
     seen = set()
     for info in outs:
@@ -259,7 +282,7 @@ def run(tier):
             chk.violation(sig, f"{m['node']}: {clause}" + (f" ({m['cap']})" if "cap" in m else "") + f" on a {info['mode']} population at {info['date']}", {"date": info["date"], "mode": info["mode"], "persons": info["persons"], **m})
         chk.sample({"date": info["date"], "mode": info["mode"], "persons": info["n"], "columns": info["nout"], "caps": info["ncap"]})
     chk.cov["rule"] = (
-        "corner populations in eight modes (reduced earning capacity with early pension start; all incomes zero; 1e7 yearly income with 1e9 wealth; negative rental income; ages 67-100 pensioners; couple with 6-10 children; mixed; unemployed former high earners) over random structures, all nodes with rounding on, at 5 seeded change / regime dates (thorough: every change date 2015-2025 outside 2017H1); "
+        "corner populations in nine modes (a parent on leave with very high income before the birth and small siblings; reduced earning capacity with early pension start; all incomes zero; 1e7 yearly income with 1e9 wealth; negative rental income; ages 67-100 pensioners; couple with 6-10 children; mixed; unemployed former high earners) over random structures, all nodes with rounding on, at 5 seeded change / regime dates (thorough: every change date 2015-2025 outside 2017H1); "
         "every numeric column checked Finite, default targets NonNegative, 6-8 cap relations per run; distinct_nontrivial = distinct (date, mode, population)"
     )
     chk.assumptions += ["caps are a hand-written table of relations (see caps_for); the 'e.g.' list of the statement is covered first", "non-negativity tolerance 1e-9"]
